@@ -439,4 +439,223 @@ theorem addAll (cfg : Cfg) (fsr fsd : FS) (hok : fsOk fsd = true) :
         · obtain ⟨c1, c2, c3⟩ := this.caches
           exact ⟨c1.trans a6.1, c2.trans a6.2.1, c3.trans a6.2.2⟩
 
+/-! ### one round -/
+
+theorem mem_orderBy (σ xs : List String) (x : String) : x ∈ orderBy σ xs ↔ x ∈ xs := by
+  unfold orderBy
+  simp only [List.mem_append, mem_dedup, List.mem_filter, decide_eq_true_eq, List.mem_filter]
+  constructor
+  · rintro (h | h)
+    · exact h.2
+    · exact h.1
+  · intro h
+    by_cases e : x ∈ σ
+    · exact Or.inl ⟨e, h⟩
+    · exact Or.inr ⟨h, by simp [e]⟩
+
+/-- one iteration of the loop of `refreshIncludeTreeLocked` -/
+def round (cfg : Cfg) (σ : List String) (fsr : FS) (w : WS) : WS × Bool :=
+  addMissingReachable cfg σ fsr (removeUnreachable cfg w (computeReachable w)) (computeReachable w)
+
+theorem refreshF_succ (cfg : Cfg) (σ : List String) (fsr : FS) (n : Nat) (w : WS) :
+    refreshF cfg σ fsr (n + 1) w =
+      if (round cfg σ fsr w).2 then refreshF cfg σ fsr n (round cfg σ fsr w).1
+      else (round cfg σ fsr w).1 := rfl
+
+theorem clearCaches_of_none (w : WS) (h : CachesNone w) : clearCaches w = w := by
+  obtain ⟨h1, h2, h3⟩ := h
+  cases w
+  simp only [clearCaches] at *
+  simp [h1, h2, h3]
+
+/-- every indexed file is reachable in the include graph of the index -/
+def Sound (w : WS) : Prop := ∀ y, (w.idx.files.get y).isSome → ReachS (succG w.incG) w.root y
+
+/-- a file whose disk content is not the content the invariant speaks of stays reachable -/
+def Keep (fsr fsd : FS) (w : WS) : Prop :=
+  ∀ q, fsr.get q ≠ fsd.get q → ReachS (succG w.incG) w.root q
+
+/-- number of files on disk that are not indexed -/
+def mu (fsr : FS) (w : WS) : Nat := (fsr.keys.filter fun q => (w.idx.files.get q).isNone).length
+
+theorem length_filter_lt {α : Type} (l : List α) (p p' : α → Bool)
+    (h1 : ∀ a ∈ l, p' a = true → p a = true) (h2 : ∃ a ∈ l, p a = true ∧ p' a = false) :
+    (l.filter p').length < (l.filter p).length := by
+  induction l with
+  | nil => obtain ⟨a, ha, _⟩ := h2; simp at ha
+  | cons b r ih =>
+    have hle : (r.filter p').length ≤ (r.filter p).length := by
+      clear ih h2
+      induction r with
+      | nil => simp
+      | cons c r ih2 =>
+        have := ih2 (fun a ha => h1 a (by
+          rcases List.mem_cons.mp ha with h | h
+          · exact h ▸ List.mem_cons_self
+          · exact List.mem_cons_of_mem _ (List.mem_cons_of_mem _ h)))
+        have hc := h1 c (List.mem_cons_of_mem _ List.mem_cons_self)
+        simp only [List.filter_cons]
+        cases e1 : p' c <;> cases e2 : p c <;> simp_all <;> omega
+    obtain ⟨a, ha, hpa, hpa'⟩ := h2
+    simp only [List.filter_cons]
+    rcases List.mem_cons.mp ha with h | h
+    · subst h
+      simp only [hpa, hpa', if_true, Bool.false_eq_true, if_false, List.length_cons]
+      omega
+    · have := ih (fun a ha => h1 a (List.mem_cons_of_mem _ ha)) ⟨a, h, hpa, hpa'⟩
+      have hb := h1 b List.mem_cons_self
+      cases e1 : p' b <;> cases e2 : p b <;> simp_all <;> omega
+
+structure RoundOk (cfg : Cfg) (fsr fsd : FS) (w w' : WS) (b : Bool) : Prop where
+  pinv : PInv cfg fsd w'
+  none : CachesNone w'
+  agree : Agree fsr fsd w'
+  keep : Keep fsr fsd w'
+  sound : Sound w'
+  root : w'.root = w.root
+  closed : b = false → Closed fsd w'
+  less : Sound w → b = true → mu fsr w' < mu fsr w
+
+theorem round_ok (cfg : Cfg) (σ : List String) (fsr fsd : FS) (w : WS)
+    (h : PInv cfg fsd w) (hok : fsOk fsd = true) (hnone : CachesNone w)
+    (hag : Agree fsr fsd w) (hkeep : Keep fsr fsd w) :
+    RoundOk cfg fsr fsd w (round cfg σ fsr w).1 (round cfg σ fsr w).2 := by
+  have hR := mem_computeReachable w h.root_ne
+  obtain ⟨r1, r2, r3, r4, r5⟩ := removeUnreachable_spec cfg fsd w h
+  generalize hw1 : removeUnreachable cfg w (computeReachable w) = w1 at r1 r2 r3 r4 r5
+  have hag1 : Agree fsr fsd w1 := by
+    intro q hq
+    rw [r2 q] at hq
+    by_cases e : q ∈ computeReachable w
+    · simp only [e, if_true] at hq; exact hag q hq
+    · apply Classical.byContradiction
+      intro hne
+      exact e ((hR q).mpr (hkeep q hne))
+  have ha := addAll cfg fsr fsd hok (orderBy σ (computeReachable w)) w1 false r1 hag1
+  generalize hw2 : (List.foldl (addStep cfg fsr) (w1, false) (orderBy σ (computeReachable w))) = r at ha
+  have hnone1 : CachesNone w1 := by
+    obtain ⟨c1, c2, c3⟩ := r5
+    exact ⟨c1.trans hnone.1, c2.trans hnone.2.1, c3.trans hnone.2.2⟩
+  have hnone2 : CachesNone r.1 := by
+    obtain ⟨c1, c2, c3⟩ := ha.caches
+    exact ⟨c1.trans hnone1.1, c2.trans hnone1.2.1, c3.trans hnone1.2.2⟩
+  have hround : round cfg σ fsr w = (r.1, r.2) := by
+    unfold round
+    rw [hw1, addMissing_eq]
+    simp only [hw2]
+    cases e : r.2 with
+    | true => simp [clearCaches_of_none r.1 hnone2]
+    | false =>
+      simp only [Bool.false_eq_true, if_false]
+      rw [← e]
+  rw [hround]
+  simp only
+  have hroot2 : r.1.root = w.root := ha.root.trans r4
+  -- indexed files of w1 are reachable
+  have hidx1 : ∀ y, (w1.idx.files.get y).isSome → ReachS (succG w.incG) w.root y := by
+    intro y hy
+    rw [r2 y] at hy
+    by_cases e : y ∈ computeReachable w
+    · exact (hR y).mp e
+    · simp [e] at hy
+  have hreach12 : ∀ u, ReachS (succG w.incG) w.root u → ReachS (succG r.1.incG) r.1.root u := by
+    intro u hu
+    rw [hroot2, ← r4]
+    exact ha.reach u (r4 ▸ (r3 u).mpr hu)
+  refine ⟨ha.pinv, hnone2, ha.agree, ?_, ?_, hroot2, ?_, ?_⟩
+  · intro q hq; exact hreach12 q (hkeep q hq)
+  · intro y hy
+    rcases (ha.files y).mp hy with h1 | ⟨h1, _⟩
+    · exact hreach12 y (hidx1 y h1)
+    · exact hreach12 y ((hR y).mp ((mem_orderBy _ _ _).mp h1))
+  · -- no file was added: the indexed files are the reachable existing files
+    intro hb
+    have hno : ∀ y, y ∈ computeReachable w → w1.idx.files.get y = none → fsr.get y = none := by
+      intro y hy hyn
+      cases e : fsr.get y with
+      | none => rfl
+      | some c =>
+        have : r.2 = true := ha.flag.mpr (Or.inr ⟨y, (mem_orderBy _ _ _).mpr hy, hyn, by rw [e]; rfl⟩)
+        rw [hb] at this; simp at this
+    have hsame : ∀ y, r.1.idx.files.get y = w1.idx.files.get y := by
+      intro y
+      cases e : w1.idx.files.get y with
+      | some fi => exact ha.keep y fi e
+      | none =>
+        cases e2 : r.1.idx.files.get y with
+        | none => rfl
+        | some fi =>
+          have := (ha.files y).mp (by rw [e2]; rfl)
+          rcases this with h1 | ⟨h1, h2⟩
+          · rw [e] at h1; simp at h1
+          · rw [hno y ((mem_orderBy _ _ _).mp h1) e] at h2; simp at h2
+    intro p
+    rw [hroot2, hsame p]
+    constructor
+    · intro hp
+      obtain ⟨fi, hfi⟩ := Option.isSome_iff_exists.mp hp
+      obtain ⟨c, hc, _⟩ := r1.g.fresh p fi hfi
+      refine ⟨?_, by rw [hc]; rfl⟩
+      have := reachG_sound cfg fsd w1 NoDead r1.g p (r4 ▸ (r3 p).mpr (hidx1 p hp))
+      rw [r4] at this; exact this
+    · rintro ⟨hp, hex⟩
+      have key : ∀ x, Reach fsd w.root x →
+          ReachS (succG w1.incG) w.root x ∧ ((fsd.get x).isSome → (w1.idx.files.get x).isSome) := by
+        intro x hx
+        induction hx with
+        | base => exact ⟨.base, fun _ => r4 ▸ r1.rootIdx⟩
+        | @step u v _ hq ih =>
+          have hu : (fsd.get u).isSome := by
+            cases e : fsd.get u with
+            | some _ => rfl
+            | none => simp [succs, e] at hq
+          have hiu := ih.2 hu
+          obtain ⟨fi, hfi⟩ := Option.isSome_iff_exists.mp hiu
+          obtain ⟨c, hc, hfic⟩ := r1.g.fresh u fi hfi
+          have hv : v ∈ c.incs := by simpa [succs, hc] using hq
+          have hrv : ReachS (succG w1.incG) w.root v := by
+            by_cases e : v = u
+            · exact e ▸ ih.1
+            · refine .step ih.1 ?_
+              unfold succG
+              rw [r1.g.incOk u, includesOf_eq w1 u fi hfi, hfic]
+              exact (mem_resolveIncl u c.incs v).mpr ⟨hv, e⟩
+          refine ⟨hrv, ?_⟩
+          intro hexv
+          cases e : w1.idx.files.get v with
+          | some _ => rfl
+          | none =>
+            have hvR : v ∈ computeReachable w := (hR v).mpr ((r3 v).mp hrv)
+            have := hno v hvR e
+            rw [hag1 v e] at this
+            rw [this] at hexv; simp at hexv
+      exact (key p hp).2 hex
+  · -- progress
+    intro hs hb
+    unfold mu
+    have hw1eq : ∀ y, w1.idx.files.get y = w.idx.files.get y := by
+      intro y
+      rw [r2 y]
+      by_cases e : y ∈ computeReachable w
+      · simp [e]
+      · cases e2 : w.idx.files.get y with
+        | none => simp
+        | some fi => exact absurd ((hR y).mpr (hs y (by rw [e2]; rfl))) e
+    apply length_filter_lt
+    · intro a _ ha'
+      have : r.1.idx.files.get a = none := by simpa using ha'
+      cases e : w.idx.files.get a with
+      | none => rfl
+      | some fi =>
+        have := ha.keep a fi (by rw [hw1eq a]; exact e)
+        simp_all
+    · obtain hf | ⟨y, hy1, hy2, hy3⟩ := ha.flag.mp hb
+      · simp at hf
+      · refine ⟨y, (mem_keys_iff _ _).mpr hy3, ?_, ?_⟩
+        · rw [← hw1eq y, hy2]; rfl
+        · have := (ha.files y).mpr (Or.inr ⟨hy1, hy3⟩)
+          cases e : r.1.idx.files.get y with
+          | none => rw [e] at this; simp at this
+          | some _ => rfl
+
 end HL.Lemmas.Refresh
